@@ -9,6 +9,7 @@ import MpycV.Lemmas.NumThGcdextNorm
 import MpycV.Lemmas.NumThJacobi
 import MpycV.Lemmas.NumThRoots
 import MpycV.Lemmas.NumThFpp
+import MpycV.Lemmas.NumThFppComplete
 import MpycV.Lemmas.NumThRatrec
 
 namespace MpycV.C25
@@ -186,7 +187,7 @@ example : ∃ y : Nat, iroot 1000 3 = .ok ((y : Int), (1000 : Int) == (y : Int) 
 
 /-- ★ soundness: a returned (p, d) has p prime and p^d = x — needing only that the primality test has no false
 positives on the value it is finally asked about; x ≤ 1 raises ValueError.
-(Completeness — every prime power is recognised — is validated by the oracle only.) -/
+Completeness: `factor_prime_power_complete` below (needs a correct oracle). -/
 theorem factor_prime_power_sound (isP : Int → Bool) (hS : ∀ q, isP q = true → Nat.Prime q.toNat) (x : Int) :
     (x ≤ 1 → factorPrimePower isP x = .error .valueError) ∧
     (∀ p d, factorPrimePower isP x = .ok (p, d) → Nat.Prime p.toNat ∧ p ^ d = x) :=
@@ -194,6 +195,37 @@ theorem factor_prime_power_sound (isP : Int → Bool) (hS : ∀ q, isP q = true 
 
 example : ∀ q : Int, (fun y : Int => decide (Nat.Prime y.toNat)) q = true → Nat.Prime q.toNat :=
   fun q h => by simpa using h
+
+/-- ★ (was ☆) completeness: with a correct primality oracle every prime power q^e (e ≥ 1) is recognised, for primes
+below and above 2^10 alike (all fuels of the model suffice) -/
+theorem factor_prime_power_complete (isP : Int → Bool) (hP : CorrectOracle isP) (q e : Nat) (hq : q.Prime)
+    (he : 0 < e) : factorPrimePower isP ((q : Int) ^ e) = .ok ((q : Int), e) :=
+  factorPrimePower_complete isP hP q e hq he
+
+/-- with a correct oracle: (p, d) is returned iff x = p^d with p prime and d ≥ 1; in particular a number that is
+not a prime power is never accepted -/
+theorem factor_prime_power_iff (isP : Int → Bool) (hP : CorrectOracle isP) (x p : Int) (d : Nat) :
+    factorPrimePower isP x = .ok (p, d) ↔ (Nat.Prime p.toNat ∧ 0 < d ∧ p ^ d = x) := by
+  constructor
+  · intro h
+    obtain ⟨h1, h2⟩ := factorPrimePower_sound isP (fun q hq => (hP q).mp hq) x p d h
+    refine ⟨h1, ?_, h2⟩
+    rcases Nat.eq_zero_or_pos d with h0 | h0
+    · subst h0
+      have hx : x ≤ 1 := by rw [← h2]; simp
+      rw [factorPrimePower_small isP x hx] at h
+      exact absurd h (by simp)
+    · exact h0
+  · rintro ⟨h1, h2, rfl⟩
+    have hp0 : 0 ≤ p := by
+      by_contra hneg
+      have : p.toNat = 0 := by omega
+      rw [this] at h1; exact Nat.not_prime_zero h1
+    obtain ⟨pn, rfl⟩ : ∃ pn : Nat, p = (pn : Int) := ⟨p.toNat, (Int.toNat_of_nonneg hp0).symm⟩
+    exact factorPrimePower_complete isP hP pn d (by simpa using h1) h2
+
+example : factorPrimePower (fun y => decide (Nat.Prime y.toNat)) ((1031 : Nat) ^ 6 : Int) = .ok (((1031 : Nat) : Int), 6) :=
+  factor_prime_power_complete _ (fun y => by simp) 1031 6 (by norm_num) (by decide)
 
 /-! ## ratrec -/
 
